@@ -89,7 +89,13 @@ pub struct RealEnc {
 
 pub struct World {
     pub focus: String,
+    /// the authority's instance: setup, update, rekey, prune, key generation, refresh, recaps
     pub cc: Covercrypt,
+    /// the instance of everybody else (encapsulation, decapsulation): authority and users do not
+    /// share a process, so nothing an instance remembers may be needed by, or leak into, the other
+    pub user_cc: Covercrypt,
+    /// alternates the order in which the decapsulation matrix is walked
+    pub matrix_parity: bool,
     pub msk: MasterSecretKey,
     pub m: MMsk,
     pub mpks: Vec<(MasterPublicKey, MMpk)>,
@@ -143,6 +149,8 @@ impl World {
         let mut w = World {
             focus: focus.to_string(),
             cc,
+            user_cc: Covercrypt::default(),
+            matrix_parity: false,
             msk,
             m,
             mpks: vec![(mpk, mm)],
@@ -594,17 +602,22 @@ impl World {
         if removed && !self.usks.is_empty() {
             self.events.insert("enc-under-removed-revision-at-check");
         }
-        for ui in 0..self.usks.len() {
-            for ei in 0..self.encs.len() {
-                self.check_pair(ui, ei)?;
-            }
+        // every other walk goes backwards: the pair judged last is then judged first next time,
+        // whatever happened to its key in between
+        let mut pairs: Vec<(usize, usize)> = (0..self.usks.len()).flat_map(|ui| (0..self.encs.len()).map(move |ei| (ui, ei))).collect();
+        if self.matrix_parity {
+            pairs.reverse();
+        }
+        self.matrix_parity = !self.matrix_parity;
+        for (ui, ei) in pairs {
+            self.check_pair(ui, ei)?;
         }
         Ok(())
     }
 
     pub fn check_pair(&mut self, ui: usize, ei: usize) -> Step {
         let expected = opens(&self.usks[ui].m, &self.encs[ei].m);
-        let r = self.cc.decaps(&self.usks[ui].key, &self.encs[ei].enc);
+        let r = self.user_cc.decaps(&self.usks[ui].key, &self.encs[ei].enc);
         self.asserted_outcomes += 1;
         if self.injected_roundtrip_at.is_some() {
             self.outcomes_after_roundtrip += 1;
@@ -1228,7 +1241,7 @@ impl World {
 
     fn do_encaps(&mut self, mi: usize, dnf: &[Conj], pol: &AccessPolicy) -> Step {
         let me = self.mpks[mi].1.encaps(dnf);
-        let r = self.cc.encaps(&self.mpks[mi].0, pol);
+        let r = self.user_cc.encaps(&self.mpks[mi].0, pol);
         let latest = mi == self.mpks.len() - 1;
         self.log(format!("encaps(public key #{mi}{}, {}) -> {}", if latest { " (latest)" } else { " (old)" }, dnf_str(dnf), okerr(&r)));
         let e = match &me {
@@ -1280,7 +1293,7 @@ impl World {
                     w2.encs[k].0[pos] ^= 0x10;
                     if let Ok(m) = de::<XEnc>(&w2.encode()) {
                         self.count("mlkem-ct-binding-probe");
-                        if let Ok(Some(_)) = self.cc.decaps(&self.usks[ui].key, &m) {
+                        if let Ok(Some(_)) = self.user_cc.decaps(&self.usks[ui].key, &m) {
                             return self.fail(&["C11", "C07"], "mlkem-ciphertext-not-bound", format!("encapsulation for {}: flipping a bit of an ML-KEM ciphertext still lets an authorized key obtain a secret", dnf_str(dnf)));
                         }
                         self.events.insert("mlkem-binding-probed");
@@ -1304,7 +1317,7 @@ impl World {
                         }
                     }) {
                         self.count("mlkem-dk-needed-probe");
-                        if let Ok(Some(_)) = self.cc.decaps(&k2, &enc) {
+                        if let Ok(Some(_)) = self.user_cc.decaps(&k2, &enc) {
                             return self.fail(&["C11"], "mlkem-key-not-needed", format!("encapsulation for {} (all targets hybridized): an authorized key whose ML-KEM decapsulation keys were all replaced by an unrelated key still obtains a secret", dnf_str(dnf)));
                         }
                         self.events.insert("mlkem-dk-needed-probed");
@@ -1379,7 +1392,7 @@ impl World {
             let dnf = vec![conj];
             let me = self.mpks[mi].1.encaps(&dnf);
             let pol = RPolicy::from_dnf(&dnf, 0).to_ast();
-            let r = self.cc.encaps(&self.mpks[mi].0, &pol);
+            let r = self.user_cc.encaps(&self.mpks[mi].0, &pol);
             self.count("disabled-probe");
             match (&me, &r) {
                 (Err(_), Ok(_)) => {
